@@ -568,6 +568,8 @@ def stream_kauri(chk, i, rng):
     Lt, leaves = check_tree(chk, key + ":train", est.tree_, X, rng, dict(replay, array="train"), est.predict)
     if Lt is not None and not np.array_equal(Lt, np.asarray(est.labels_)):
         chk.fail(key + ":train-labels", "Kauri.predict(X_train) does not reproduce labels_", replay, layer="L3")
+    if Lt is not None:
+        partition_consistency(chk, key, est, X, replay)
     Xn = fresh_array(rng, X)
     if rng.random() < 0.5:                      # values exactly on thresholds
         ths = [(f, t) for f, t in zip(est.tree_.features, est.tree_.thresholds) if f is not None]
@@ -628,6 +630,160 @@ def stream_tree(chk, i, rng):
     chk.dist[f"tree-nodes={min(tr.n_nodes, 9)}{'+' if tr.n_nodes > 9 else ''}"] += 1
     chk.dist["tree-empty-array" if m == 0 else "tree-rows"] += 1
     chk.count(("tree", splits, d, m, node, hash(A.tobytes())) if splits >= 1 and len(leaves) >= 2 else None)
+
+
+# ---------------------------------------------------------------------------------------------- adversarial floats
+def partition_consistency(chk, key, est, X, replay):
+    """stored rule == training partition: with the leaf numbering of Kauri.fit (left child keeps the leaf number, the
+    right child of the k-th split gets number k) leaves_ gives the training samples under every node; every stored
+    threshold t must have x <= t for all training samples fit sent left and x > t for all it sent right.
+    Returns the number of splits that separate two ADJACENT doubles."""
+    ta = tree_arrays(est.tree_)
+    n = ta["n_nodes"]
+    leaf_id, counter = {0: 0}, 1
+    for a in sorted((a for a in range(n) if ta["left"][a] != -1), key=lambda a: ta["left"][a]):
+        if a not in leaf_id:
+            chk.fail(key + ":numbering", "tree nodes are not created in split order", dict(replay, tree=ta), layer="L3")
+            return 0
+        leaf_id[ta["left"][a]] = leaf_id[a]
+        leaf_id[ta["right"][a]] = counter
+        counter += 1
+    lv = np.asarray(est.leaves_)
+    under = {}
+
+    def samples(a):
+        if a not in under:
+            under[a] = np.nonzero(lv == leaf_id[a])[0] if ta["left"][a] == -1 else np.concatenate([samples(ta["left"][a]), samples(ta["right"][a])])
+        return under[a]
+    if len(samples(0)) != len(X):
+        chk.fail(key + ":leaves", "leaves_ does not cover the training samples through the leaves of tree_", dict(replay, tree=ta), layer="L3")
+        return 0
+    adjacent = 0
+    for a in range(n):
+        if ta["left"][a] == -1:
+            continue
+        f, t = ta["feat"][a], ta["thr"][a]
+        xl, xr = X[samples(ta["left"][a]), f], X[samples(ta["right"][a]), f]
+        if len(xl) == 0 or len(xr) == 0 or not (xl <= t).all() or not (xr > t).all():
+            chk.fail(key + ":threshold", f"node {a}: stored rule x[{f}] <= {t!r} does not reproduce the partition made by fit "
+                     f"(left max {xl.max() if len(xl) else None!r}, right min {xr.min() if len(xr) else None!r})", dict(replay, node=a, tree=ta), layer="L3")
+        elif xr.min() == np.nextafter(xl.max(), np.inf):
+            adjacent += 1
+    return adjacent
+
+
+ADV_MODERATE = [0.3, 0.1, 1.0, -1.0, 1.0 / 3.0, 0.7, -0.30000000000000004, 2.0 ** -20, 123456.789, -2.5]
+ADV_EXTREME = [-5e-324, 5e-324, 1e-300, -1e-300, 2.0 ** 53, 1e300, -1e300, 1e308, 2.2250738585072014e-308]
+
+
+def adversarial_feature(rng, n, g, extreme):
+    """values in g ordered groups whose neighbouring groups are separated by two ADJACENT doubles (a, nextafter(a, +inf)),
+    with duplicates of the border values; returns (values, group index)"""
+    pool = ADV_MODERATE + (ADV_EXTREME if extreme else [])
+    bases = sorted(set(float(v) for v in rng.choice(pool, size=min(g - 1, len(pool)), replace=False)))
+    g = len(bases) + 1
+    lo = [None] + [float(np.nextafter(a, np.inf)) for a in bases]       # smallest value of group j (j >= 1)
+    hi = bases + [None]                                                  # largest value of group j (j < g-1)
+    vals, grp = [], []
+    for j in range(g):
+        l = lo[j] if lo[j] is not None else hi[j] - min(abs(hi[j]), 1e300) - 1.0
+        h = hi[j] if hi[j] is not None else lo[j] + min(abs(lo[j]), 1e300) + 1.0
+        cnt = max(2, n // g + int(rng.integers(-1, 2)))
+        mine = [v for v in (lo[j], hi[j]) if v is not None]
+        while len(mine) < cnt:
+            u = rng.random()
+            if u < 0.35:
+                mine.append(mine[int(rng.integers(0, len(mine)))])            # exact duplicates / ties
+            elif u < 0.5 and l <= 0.0 <= h:
+                mine.append(float(rng.choice([0.0, -0.0])))                   # negative zero
+            else:
+                w = h - l
+                v = float(l + w * rng.random()) if np.isfinite(w) else float(rng.choice([l, h]))
+                mine.append(min(max(v, l), h))
+        vals += mine
+        grp += [j] * len(mine)
+    return np.array(vals), np.array(grp)
+
+
+def stream_kauri_adv(chk, i, rng):
+    """trees on adversarial float data: splits forced between adjacent doubles (0.3 | 0.1+0.2, x | nextafter(x)), ties,
+    duplicates, negative zero, denormal and huge magnitudes; predict(X_train) == labels_, stored thresholds == the partition
+    made by fit, extracted routing model on the stored tree == labels_.  Every 5th case: Douglas on the same kind of data."""
+    douglas = i % 5 == 4
+    kern = "precomputed" if (i % 5) in (0, 1, 2) else str(rng.choice(["linear", "rbf", "laplacian", "polynomial"]))
+    extreme = kern == "precomputed" and not douglas and rng.random() < 0.6
+    g = int(rng.integers(2, 5))
+    vals, grp = adversarial_feature(rng, int(rng.integers(5, 25)), g, extreme)
+    n = len(vals)
+    cols = [vals]
+    if kern != "precomputed" or rng.random() < 0.3:
+        cols.append(grp * 4.0 + (0.0 if rng.random() < 0.5 else 0.25 * rng.random(n)))   # a signal feature the named kernels can see
+    if rng.random() < 0.3:
+        cols.append(rng.integers(-1, 2, size=n).astype(float))
+    fadv = 0
+    if rng.random() < 0.3 and len(cols) > 1:
+        cols = cols[1:] + cols[:1]
+        fadv = len(cols) - 1
+    perm = rng.permutation(n)
+    X = np.ascontiguousarray(np.stack(cols, axis=1)[perm])
+    grp = grp[perm]
+    replay = {"n": n, "d": X.shape[1], "groups": int(grp.max()) + 1, "kernel": kern, "extreme": bool(extreme),
+              "X": [[float(v).hex() for v in row] for row in X.tolist()]}
+    if douglas:
+        K = int(rng.integers(2, 4))
+        est = impl.make("Douglas", n_clusters=K, n_cuts=int(rng.integers(1, 3)), max_iter=2, temperature=float(rng.choice([0.1, 1.0])),
+                        batch_size=None if rng.random() < 0.5 else int(rng.integers(1, n + 1)), random_state=int(rng.integers(0, 10 ** 6)))
+        est.fit(X)
+        Lt, Pt, _ = rowwise_suite(chk, "kauri-adv:douglas", "douglas-adv", est, X, rng, dict(replay, estimator="Douglas"))
+        if Pt is not None and Pt.shape == (n, K):
+            train_labels(chk, "kauri-adv:douglas", est, X, Lt, Pt, dict(replay, estimator="Douglas"))
+        chk.dist["kauri-adv:Douglas"] += 1
+        chk.count(("adv-douglas", n, X.shape[1], K, hash(X.tobytes())) if Lt is not None and len(set(Lt.tolist())) >= 2 else None)
+        return
+    y = None
+    if kern == "precomputed":
+        coarse = grp // 2
+        y = (grp[:, None] == grp[None, :]).astype(float) + float(rng.choice([0.0, 0.5])) * (coarse[:, None] == coarse[None, :])
+    kw = dict(max_clusters=int(grp.max()) + 1 + int(rng.integers(0, 3)), min_samples_leaf=1, min_samples_split=2, kernel=kern,
+              max_depth=None, max_leaves=None, random_state=int(rng.integers(0, 10 ** 6)))
+    est = impl.make("Kauri", **kw)
+    replay.update(estimator="Kauri", kw=kw)
+    est.fit(X, y)
+    key = "kauri-adv"
+    Lt, leaves = check_tree(chk, key + ":train", est.tree_, X, rng, replay, est.predict)
+    if Lt is None:
+        chk.count(None)
+        return
+    lab = np.asarray(est.labels_)
+    if not np.array_equal(Lt, lab):
+        bad = np.nonzero(Lt != lab)[0]
+        chk.fail(key + ":train-labels", f"Kauri.predict(X_train) does not reproduce labels_ at rows {bad.tolist()[:6]} "
+                 f"(values {[X[b, :].tolist() for b in bad[:3]]})", dict(replay, tree=tree_arrays(est.tree_)), layer="L3")
+    st, vec, rows = model_tree(chk, tree_arrays(est.tree_), X, list(range(n)))
+    if st != 0 or vec != lab.tolist() or [l for _, l in rows] != lab.tolist():
+        chk.fail(key + ":model-vs-labels", "the extracted routing model on the stored tree does not reproduce labels_", dict(replay, tree=tree_arrays(est.tree_)))
+    adjacent = partition_consistency(chk, key, est, X, replay)
+    # fresh points sitting on, just below and just above every stored threshold
+    ths = [(f, t) for f, t in zip(est.tree_.features, est.tree_.thresholds) if f is not None]
+    if ths:
+        rows_new = []
+        for f, t in ths:
+            for v in (t, np.nextafter(t, -np.inf), np.nextafter(t, np.inf), -t):
+                r0 = X[int(rng.integers(0, n))].copy()
+                r0[f] = v
+                rows_new.append(r0)
+        Xn = np.array(rows_new)[rng.permutation(len(rows_new))][:24]
+        Xn = np.ascontiguousarray(Xn[np.isfinite(Xn).all(1)])
+        if len(Xn):
+            check_tree(chk, key + ":fresh", est.tree_, Xn, rng, dict(replay, array="fresh"), est.predict,
+                       maps=index_maps(rng, len(Xn), singles=len(Xn) <= 10))
+    on_adv = sum(1 for f, _ in ths if f == fadv)
+    chk.traces += 1
+    chk.dist["kauri-adv:" + kern] += 1
+    chk.dist[f"kauri-adv:adjacent-double-splits={min(adjacent, 3)}{'+' if adjacent > 3 else ''}"] += 1
+    chk.dist["kauri-adv:extreme-magnitudes" if extreme else "kauri-adv:moderate"] += 1
+    chk.count(("kauri-adv", kern, n, X.shape[1], int(est.tree_.n_nodes), adjacent, on_adv, hash(X.tobytes())) if adjacent >= 1 else None)
+    chk.sample({"stream": "kauri_adv", "kernel": kern, "n": n, "adjacent_double_splits": adjacent, "thresholds": [float(t).hex() for _, t in ths][:4]}, limit=10)
 
 
 # ---------------------------------------------------------------------------------------------- refit
@@ -839,7 +995,7 @@ def stream_malformed(chk, i, rng):
 
 
 STREAMS = {"gradient": (stream_gradient, 390, 3900), "krim": (stream_krim, 84, 840), "douglas": (stream_douglas, 60, 600),
-           "kauri": (stream_kauri, 120, 1800), "tree": (stream_tree, 300, 4500), "refit": (stream_refit, 150, 1800), "malformed": (stream_malformed, 24, 240)}
+           "kauri": (stream_kauri, 120, 1800), "tree": (stream_tree, 300, 4500), "kauri_adv": (stream_kauri_adv, 120, 2000), "refit": (stream_refit, 150, 1800), "malformed": (stream_malformed, 24, 240)}
 
 
 def main():
@@ -864,7 +1020,7 @@ def main():
     chk.finish(rule="streams: real fits (2-3 epochs, every GEMINI on the generic estimators, all 12 gradient estimators, KernelRIM with 6 named kernels and a callable, "
                     "Douglas, Kauri) then predict / predict_proba on the training array and on a fresh array (fresh rows, copies of training rows, duplicated rows) "
                     "as a whole vs a random subset, a permutation, the reversed array, a selection with repetitions and every single row; extracted forward pass / "
-                    "Tree.predict model on the recorded parameters vs the implementation on X[r]; refit stream: every inductive estimator fitted on A, used (predict / predict_proba / score), fitted again on B (other n, sometimes other d) on the same object, then the same checks on B plus agreement with a fresh estimator; hand-grown trees through Tree._add_child with any start node, "
+                    "Tree.predict model on the recorded parameters vs the implementation on X[r]; refit stream: every inductive estimator fitted on A, used (predict / predict_proba / score), fitted again on B (other n, sometimes other d) on the same object, then the same checks on B plus agreement with a fresh estimator; kauri_adv stream: Kauri (precomputed block kernels and named kernels) on training sets whose groups are separated by adjacent doubles (0.3 | 0.1+0.2, x | nextafter x), with ties, duplicates, negative zero, denormal and huge magnitudes: predict(X_train) = labels_, every stored threshold reproduces the partition made by fit (from leaves_), routing model on the stored tree = labels_, fresh points on / next to every threshold (non-trivial = at least one split between adjacent doubles); hand-grown trees through Tree._add_child with any start node, "
                     "empty arrays, NaN/inf entries, values on thresholds. non-trivial = at least two distinct labels (gradient models) / two distinct leaves reached "
                     "(trees) so that a constant predictor would not pass; distinct = distinct (estimator, objective, n, d, K, m, ...) signature",
                extra={"rowwise_probability_differences": fams})
